@@ -130,12 +130,15 @@ Fixpoint lookup_size (i : id) (l : list (id * N)) : option N :=
   match l with [] => None | (j, n) :: r => if N.eqb i j then Some n else lookup_size i r end.
 Definition mem (i : id) (l : list id) : bool := existsb (N.eqb i) l.
 
+(* get_missing_files collects both listings into maps (id -> size) and works on ids:
+   common = hot ids that the cold map holds with the same size *)
+Definition size_eqb (a b : option N) : bool :=
+  match a, b with Some x, Some y => N.eqb x y | _, _ => false end.
 Definition common_ids (hl cl : list (id * N)) : list id :=
-  flat_map (fun e => match lookup_size (fst e) cl with
-                     | Some n => if N.eqb n (snd e) then [fst e] else []
-                     | None => [] end) hl.
-Definition only_ids (relevant : id -> bool) (l : list (id * N)) (com : list id) : list id :=
-  map fst (filter (fun e => negb (mem (fst e) com) && relevant (fst e)) l).
+  filter (fun i => size_eqb (lookup_size i hl) (lookup_size i cl)) (map fst hl).
+(* retain: ids of one listing that are not excluded and are relevant *)
+Definition only_ids (relevant : id -> bool) (l : list (id * N)) (excl : list id) : list id :=
+  filter (fun i => negb (mem i excl) && relevant i) (map fst l).
 
 (* copy(files, file_type, from, to): read_full on `from`, write_bytes on `to` *)
 Definition copy_to (dst : side) (ft : file_type) (ids : list id) (x : st) : st :=
@@ -143,14 +146,18 @@ Definition copy_to (dst : side) (ft : file_type) (ids : list id) (x : st) : st :
                         | Some b => set_side dst (put (ft, i) b (side_store dst x)) x
                         | None => x end) ids x.
 
-Definition repair_type (ft : file_type) (relevant : id -> bool) (x : st) : st :=
+Definition repair_type_r (rule : hot_only_rule) (ft : file_type) (relevant : id -> bool) (x : st) : st :=
   let hl := listing ft (hot x) in
   let cl := listing ft (cold x) in
   let com := common_ids hl cl in
   let cold_only := only_ids relevant cl com in     (* "missing_hot" *)
-  let hot_only := only_ids relevant hl com in      (* "missing_cold" *)
+  let hot_only := match rule with                  (* "missing_cold" *)
+                  | HotOnlyNotCommon => only_ids relevant hl com
+                  | HotOnlyNotInCold => only_ids relevant hl (map fst cl)
+                  end in
   fold_left (fun x dst => copy_to dst ft (match dst with Cold => hot_only | Hot => cold_only end) x)
             repair_copy_order x.
+Definition repair_type := repair_type_r repair_hot_only_rule.
 
 (* Repository::repair_hotcold_except_packs *)
 Definition repair_except_packs (x : st) : st :=
